@@ -649,6 +649,30 @@ Proof.
     intros ->. rewrite (proj2 (pstr_eqb_eq l l) eq_refl) in E. discriminate E.
   - rewrite (multiply_code_ok p q) in HM by (rewrite (Hn p P1), (Hn q Q1); reflexivity). injection HM as <-. reflexivity.
 Qed.
+
+(* ---- append_delayed / restore_delayed: the cut-off vertices come back to the FRONT of the build queue, in their order ---- *)
+Definition down (m : nat) : list Z := map (fun k_ => Z.of_nat m - 1 - Z.of_nat k_) (seq 0 m).
+Lemma down_S m : down (S m) = Z.of_nat m :: down m.
+Proof.
+  unfold down. cbn [seq map]. f_equal; [lia|]. rewrite <- seq_shift, map_map. apply map_ext. intros k. lia.
+Qed.
+Lemma firstn_snoc_nth {A} (d : A) : forall (l : list A) m, (m < length l)%nat -> firstn (S m) l = firstn m l ++ [nth m l d].
+Proof. induction l as [|a l IH]; intros m Hm; [cbn in Hm; lia|]. destruct m as [|m]; [reflexivity|]. change (firstn (S (S m)) (a :: l)) with (a :: firstn (S m) l). rewrite (IH m) by (cbn in Hm; lia). reflexivity. Qed.
+Lemma restore_loop d : forall m V, (m <= length d)%nat -> py_Q_restore_delayed_loop1 (down m) d V = FRet (firstn m d ++ V, []).
+Proof.
+  induction m as [|m IH]; intros V Hm; [reflexivity|]. rewrite down_S. cbn [py_Q_restore_delayed_loop1].
+  assert (EI : idx_ok d (Z.of_nat m) = true) by (unfold idx_ok, py_index; assert (E1 : (Z.of_nat m <? 0) = false) by lia; rewrite E1; assert (E2 : ((0 <=? Z.of_nat m) && (Z.of_nat m <? Z.of_nat (length d))) = true) by lia; rewrite E2; reflexivity).
+  rewrite EI. cbv beta iota zeta. unfold norm_insert. change (0 <? 0) with false. cbv beta iota. change (Nat.min (Z.to_nat 0) (length V)) with 0%nat. cbn [insert_at].
+  rewrite IH by lia. rewrite (list_get_nth [] d (Z.of_nat m)) by (try lia; exact EI). rewrite Nat2Z.id.
+  rewrite (firstn_snoc_nth (A:=pstr) [] d m) by lia. rewrite <- List.app_assoc. reflexivity.
+Qed.
+Theorem gen_q_restore_delayed d V : py_Q_restore_delayed d V = FRet (d ++ V, []).
+Proof.
+  unfold py_Q_restore_delayed. replace (Z.to_nat (Z.of_nat (length d) - 1 - -1)) with (length d) by lia. fold (down (length d)).
+  rewrite (restore_loop d (length d) V (le_n _)), firstn_all. reflexivity.
+Qed.
+Theorem gen_q_append_delayed d v : py_Q_append_delayed d v = FRet (d ++ [v]).
+Proof. reflexivity. Qed.
 Print Assumptions gen_q_anti_commutates.
 Print Assumptions gen_q_max_connected.
 Print Assumptions gen_q_append_to_queue.
@@ -668,3 +692,5 @@ Print Assumptions gen_q_get_lits.
 Print Assumptions gen_q_is_included.
 Print Assumptions gen_q_lit.
 Print Assumptions gen_q_get_pq.
+Print Assumptions gen_q_restore_delayed.
+Print Assumptions gen_q_append_delayed.
